@@ -57,6 +57,13 @@ CASTLING = [
     "r3k2r/8/8/8/8/5n2/8/R3K2R w KQkq - 0 1",
     "rn2k1nr/8/8/8/8/8/8/RN2K1NR w KQkq - 0 1",
     "r3k2r/8/8/4q3/4Q3/8/8/R3K2R w KQkq - 0 1",
+    # the enemy king next to the castling path (diagonally / orthogonally adjacent to transit squares)
+    "8/8/8/8/8/8/1k6/R3K2R w KQ - 0 1",
+    "r3k2r/1K6/8/8/8/8/8/8 b kq - 0 1",
+    "8/8/8/8/8/8/6k1/R3K2R w KQ - 0 1",
+    "r3k2r/6K1/8/8/8/8/8/8 b kq - 0 1",
+    "8/8/8/8/8/8/2k5/R3K2R w KQ - 0 1",
+    "4k3/8/8/8/8/2k5/8/R3K2R w KQ - 0 1".replace("4k3/8/8/8/8/2k5", "8/8/8/8/8/2k5"),
 ]
 
 PROMO = [
